@@ -70,7 +70,8 @@ impl QueuingMetricSinkBuilder {
 
         spawn_worker_in_thread(worker.clone());
 
-        QueuingMetricSink { worker, sink }
+        let _stopper = Arc::new(WorkerStopper(worker.clone()));
+        QueuingMetricSink { worker, sink, _stopper }
     }
 
     /// Set error handler called when the wrapped sink fails to emit a metric.
@@ -145,7 +146,12 @@ impl QueuingMetricSinkBuilder {
 pub struct QueuingMetricSink {
     worker: Arc<Worker>,
     sink: Arc<dyn MetricSink + Send + Sync + RefUnwindSafe>,
+    _stopper: Arc<WorkerStopper>,
 }
+
+/// Shared by all clones of a `QueuingMetricSink`: stops the worker when the
+/// last clone is dropped (and only then).
+struct WorkerStopper(Arc<Worker>);
 
 impl fmt::Debug for QueuingMetricSink {
     fn fmt(&self, f: &mut fmt::Formatter<'_>) -> fmt::Result {
@@ -279,13 +285,13 @@ impl MetricSink for QueuingMetricSink {
     }
 }
 
-impl Drop for QueuingMetricSink {
+impl Drop for WorkerStopper {
     /// Send the worker a signal to stop processing metrics.
     ///
     /// Note that this destructor only sends the worker thread a signal to
     /// stop, it doesn't wait for it to stop.
     fn drop(&mut self) {
-        self.worker.stop();
+        self.0.stop();
     }
 }
 
